@@ -475,7 +475,7 @@ pub assume_specification<T: Clone, EE: Clone> [<Result<T, EE> as Clone>::clone] 
     zov['expression_list_to_asg_texpr'].update(ret='r', props=['C06', 'C03'], loops={1: ITER_NB('oq3_it1', '\n    oq3_v1@.len() + oq3_it1.rest().len() == expression_list.sp_exprs().len(),')},
         spec='ensures grows(*old(context), *final(context)), r@.len() == expression_list.sp_exprs().len(),     //@C06:arguments-keep-count')
     zov['indexed_identifier_to_asg_type'].update(ret='r', props=['C06', 'C03', 'C07'], loops={1: ITER_NB('oq3_it1', '\n    oq3_v1@.len() + oq3_it1.rest().len() == indexed_identifier.sp_index_operators().len(),')},
-        spec='ensures grows(*old(context), *final(context)), r.0.indexes@.len() == indexed_identifier.sp_index_operators().len(),     //@C06:indexes-keep-count')
+        spec='ensures grows(*old(context), *final(context)), r.0.indexes@.len() == indexed_identifier.sp_index_operators().len(),     //@C06,C07:indexes-keep-count')
     DECLS = 'forall|i: int| 0 <= i < %s.sp_statements().len() ==> decl_bound(*final(context), #[trigger] %s.sp_statements()[i]),     //@C07:declarations-bind-in-the-scope-of-their-block'
     zov['block_expr_to_asg_stmt_list'].update(ret='r', props=['C06', 'C03', 'C07'], loops={1: ITER('oq3_it1', '''
     !context.global(), oq3_v1@.len() + oq3_it1.rest().len() <= block.sp_statements().len(),
@@ -713,6 +713,13 @@ ensures
     // to exactly the declared type, or a type diagnostic was reported
     r->DeclareClassical_0.initializer is Some ==>
         decl_ok(final(context).trace().last()->Bind_1, r->DeclareClassical_0.initializer->Some_0, final(context).errs()),   //@C08:declaration-rule
+    // the symbol is recorded under the name written, with the type written: keyword, width and const-ness (`const` written or not --
+    // whether or not there is an initializer)
+    (type_decl.sp_array_type() is None && type_decl.sp_scalar_type() is Some && type_decl.sp_name() is Some) ==> ({
+        let b = final(context).trace().last();
+        &&& b->Bind_0 == type_decl.sp_name()->Some_0.sp_string()
+        &&& b->Bind_1 == type_of(type_decl.sp_scalar_type()->Some_0.sp_kind(), written_width(b->Bind_1), type_decl.sp_const_token() is Some)
+    }),                                                                                                             //@C09:declared-symbol-has-the-type-written
 '''))
     zov.setdefault('assignment_stmt_to_asg_stmt', {}).update(dict(ret='r', props=['C08', 'C13', 'C03'], spec='''
 ensures
@@ -769,7 +776,13 @@ ensures
     zov.setdefault('paren_expr_to_asg_texpr', {}).update(dict(ret='res', props=['C08', 'C06', 'C03'], spec='ensures res is Some, grows(*old(context), *final(context)), typed_ok(res->Some_0),     //@C08:expression-typed-as-its-construct\n    paren_expr.sp_expr() is Some ==> expr_kind_ok(paren_expr.sp_expr()->Some_0, res->Some_0),     //@C06:parentheses-are-transparent'))
     zov.setdefault('io_declaration_statement_to_asg_stmt', {}).update(dict(ret='r', props=['C06', 'C09', 'C03'], spec='''ensures grows(*old(context), *final(context)),
     if type_decl.sp_input_token() is Some { r is InputDeclaration } else { r is OutputDeclaration },          //@C06:statement-kind
-    (final(context).scopes() == old(context).scopes()) <==> declared_symbol(r)->Some_0 is Err,                   //@C07:redeclaration-marked-in-the-graph''',
+    (final(context).scopes() == old(context).scopes()) <==> declared_symbol(r)->Some_0 is Err,                   //@C07:redeclaration-marked-in-the-graph
+    // an input / output variable is recorded under its name with the type written, never const
+    (type_decl.sp_scalar_type() is Some && type_decl.sp_name() is Some) ==> ({
+        let b = final(context).trace().last();
+        &&& final(context).trace().len() > 0 && b is Bind && b->Bind_0 == type_decl.sp_name()->Some_0.sp_string()
+        &&& b->Bind_1 == type_of(type_decl.sp_scalar_type()->Some_0.sp_kind(), written_width(b->Bind_1), false)
+    }),                                                                                                             //@C09:declared-symbol-has-the-type-written''',
         ghost=[('context.new_binding(name_str.as_ref(), &typ, &type_decl.name().unwrap());', 'after', RM_('symbol_id', 'name_str@'))]))
     zov['syntax_to_semantic'] = dict(ret='r', props=['C03', 'C06', 'C07', 'C11', 'C12'], for_iter=['statements'], destruct=True, string_eq=['file_path'],
         spec='''requires
